@@ -23,12 +23,7 @@ type verifC16Place struct {
 	list  string
 }
 
-func verifC16ShardName(s uint32) string {
-	if s == core.MetachainShardId {
-		return "meta"
-	}
-	return fmt.Sprint(s)
-}
+func verifC16ShardName(s uint32) string { return verifSHBShardName(s) }
 
 // verifC16Places reads the configuration of an epoch through the public getters.
 // ok=false if the epoch has no configuration.
@@ -59,32 +54,10 @@ func verifC16Places(nc NodesCoordinator, epoch uint32) (places map[string][]veri
 	return places, eligible, waiting, true
 }
 
-func verifC16Describe(infos []verifSHBInfo) string {
-	var sb strings.Builder
-	for _, in := range infos {
-		fmt.Fprintf(&sb, "%s:%s@%s/i%d/r%d ", verifSHBShort(in.PK), in.List, verifC16ShardName(in.Shard), in.Index, in.TempRating)
-	}
-	return sb.String()
-}
+func verifC16Describe(infos []verifSHBInfo) string { return verifSHBDescribeInfos(infos) }
 
-func verifC16DescribeCfg(el, wt map[uint32][]string, nbShards uint32) string {
-	var sb strings.Builder
-	ids := map[uint32]bool{}
-	for s := range el {
-		ids[s] = true
-	}
-	for s := range wt {
-		ids[s] = true
-	}
-	sorted := make([]uint32, 0, len(ids))
-	for s := range ids {
-		sorted = append(sorted, s)
-	}
-	sort.Slice(sorted, func(i, j int) bool { return sorted[i] < sorted[j] })
-	for _, s := range sorted {
-		fmt.Fprintf(&sb, "[%s E=%v W=%v] ", verifC16ShardName(s), verifSHBShortList(el[s]), verifSHBShortList(wt[s]))
-	}
-	return sb.String()
+func verifC16DescribeCfg(el, wt map[uint32][]string, _ uint32) string {
+	return verifSHBDescribeCfg(el, wt, nil)
 }
 
 // verifC16Audit is the oracle for one prepared epoch. It returns the first violation (key, message) or "".
